@@ -154,6 +154,9 @@ Proof.
   - simpl in H. destruct (Nat.eqb (n_timer (getN s n)) 1); [|discriminate]. inversion H; subst; clear H. simpl.
     eapply out_on_ext; [|exact Inv]. unfold getN. val_ext_tac.
   - simpl in H. destruct (Nat.ltb slot (length (s_slots s))); [|discriminate]. inversion H; subst; clear H. exact Inv.
+  - simpl in H. destruct (Nat.ltb r (length (s_rrs s))); [|discriminate]. inversion H; subst; clear H. simpl.
+    eapply out_on_setl; [apply val_ext_refl | | exact Inv].
+    eapply out_rr_same; [ | | apply Inv]; reflexivity.
 Qed.
 
 Lemma init_out : forall k progs, out_inv (init k progs).
